@@ -2029,8 +2029,12 @@ def msvcrt_memset(jitter):
 def msvcrt_strrchr(jitter):
     ret_ad, args = jitter.func_args_cdecl(['pstr','c'])
     s = get_win_str_a(jitter, args.pstr)
-    c = int_to_byte(args.c).decode()
-    ret = args.pstr + s.rfind(c)
+    # The character is converted to a char; the terminating null character
+    # is part of the string
+    c = int_to_byte(args.c & 0xFF)
+    index = encode_win_str_a(s).rfind(c)
+    # NULL if not found
+    ret = args.pstr + index if index >= 0 else 0
     log.info("strrchr(%x '%s','%s') = %x" % (args.pstr,s,c,ret))
     jitter.func_ret_cdecl(ret_ad, ret)
 
